@@ -3,12 +3,15 @@
 //! directory part, relative, nested, absolute, without extension, with a dotted prefix. The in-memory streams
 //! (`c11`, `c10`) cannot see what the operating system does with the directory string the path is split into.
 //!
-//! case: (rfs PATHKIND MAX REUSE SIZE N RESTARTS)
+//! case: (rfs PATHKIND MAX REUSE SIZE N RESTARTS PLANT)
 //!   PATHKIND ::= nodir ("app.log") | dot ("./app.log") | rel ("logs/app.log") | nested ("a/b/app.log")
 //!              | abs (<tmp>/logs/app.log) | noext ("logs/app") | dotted ("logs/my.app.log")
 //!   the process' working directory is a fresh temp dir; RESTARTS+1 times: build the set with `max_files(MAX)`,
 //!   `reuse_files(REUSE)`, `max_file_size_bytes(SIZE)` (SIZE = 0: default), roll by minute; emit N events, each followed
 //!   by `blocking_flush(10 s)`; drop the set.
+//!   PLANT = true: before the first start the set's directory is created and given things that are NOT the set's own
+//!   although their names have the member shape: a symlink with the oldest possible period and one with a far-future
+//!   period, both pointing at a file outside the working directory, and a sub-directory; plus a sibling set's file.
 //! oracle (the property on the I/O alone; the model prints the constant verdict `ok`):
 //!   rfs-flush-false     a flush of a healthy file set failed
 //!   rfs-too-many-files  more than MAX member files are left (C11 "after every batch at most the configured maximum")
@@ -17,6 +20,8 @@
 //!   rfs-events          the records on disk, files in name order, are not a suffix of the emitted sequence ending with
 //!                       the last event (older events may only have left with a file deleted by retention)
 //!   rfs-outside         something appeared outside the set's directory
+//!   rfs-foreign-touched a planted entry is gone, or the file the symlinks point at changed (C11 "never reads, appends
+//!                       to or deletes a file that is not its own, whatever else shares the directory")
 
 use hcommon::{Rng, Sexp, Stream, Tier};
 use std::path::{Path, PathBuf};
@@ -85,7 +90,7 @@ fn run(line: &str) -> String {
     (|| -> Option<String> {
         let s = Sexp::parse(line)?;
         let (tag, a) = s.as_tagged()?;
-        if tag != "rfs" || a.len() != 6 {
+        if tag != "rfs" || a.len() != 7 {
             return None;
         }
         let kind = a[0].as_atom()?;
@@ -97,7 +102,31 @@ fn run(line: &str) -> String {
         std::fs::create_dir_all(&cwd).ok()?;
         // one case at a time per process (the runner is sequential), so the process-wide cwd is ours
         std::env::set_current_dir(&cwd).ok()?;
+        let plant = a[6].as_bool()?;
         let (path, dir, prefix, ext) = spell(kind, &cwd)?;
+        // planted foreign entries: (name in the set's directory, is symlink)
+        let outside = cwd.with_extension("outside");
+        let mut planted: Vec<String> = Vec::new();
+        if plant {
+            std::fs::create_dir_all(&outside).ok()?;
+            std::fs::write(outside.join("precious.txt"), b"precious").ok()?;
+            let d = cwd.join(&dir);
+            std::fs::create_dir_all(&d).ok()?;
+            for period in ["0001-01-01-00-00", "2999-12-31-23-59"] {
+                let name = format!("{}.{}.00000000.ffffffff.{}", prefix, period, ext);
+                #[cfg(unix)]
+                std::os::unix::fs::symlink(outside.join("precious.txt"), d.join(&name)).ok()?;
+                #[cfg(not(unix))]
+                std::fs::create_dir_all(d.join(&name)).ok()?;
+                planted.push(name);
+            }
+            let name = format!("{}.1999-01-01-00-00.00000000.00000000.{}", prefix, ext);
+            std::fs::create_dir_all(d.join(&name)).ok()?;
+            planted.push(name);
+            let name = format!("{}2.2001-01-01-00-00.00000000.00000000.{}", prefix, ext);
+            std::fs::write(d.join(&name), b"sibling\n").ok()?;
+            planted.push(name);
+        }
         let mut fails: std::collections::BTreeSet<&'static str> = Default::default();
         let mut emitted: Vec<String> = Vec::new();
         'outer: for r in 0..=restarts {
@@ -123,7 +152,8 @@ fn run(line: &str) -> String {
                 let mut members = 0;
                 if let Ok(rd) = std::fs::read_dir(cwd.join(&dir)) {
                     for e in rd.filter_map(|e| e.ok()) {
-                        if is_member(&e.file_name().to_string_lossy(), prefix, ext) {
+                        let name = e.file_name().to_string_lossy().to_string();
+                        if is_member(&name, prefix, ext) && !planted.contains(&name) {
                             members += 1;
                         }
                     }
@@ -141,6 +171,9 @@ fn run(line: &str) -> String {
             let name = f.file_name()?.to_string_lossy().to_string();
             let parent = f.parent().unwrap_or(Path::new(""));
             let in_dir = parent == dir.as_path() || (dir == Path::new(".") && parent == Path::new(""));
+            if planted.contains(&name) {
+                continue;
+            }
             if !in_dir {
                 fails.insert("rfs-outside");
             } else if !is_member(&name, prefix, ext) {
@@ -174,6 +207,20 @@ fn run(line: &str) -> String {
         if seen.is_empty() || got != tail || got.len() != seen.len() {
             fails.insert("rfs-events");
         }
+        if plant {
+            let d = cwd.join(&dir);
+            for name in &planted {
+                if std::fs::symlink_metadata(d.join(name)).is_err() {
+                    fails.insert("rfs-foreign-touched");
+                }
+            }
+            if std::fs::read(outside.join("precious.txt")).ok().as_deref() != Some(b"precious".as_slice())
+                || std::fs::read(d.join(&planted[3])).ok().as_deref() != Some(b"sibling\n".as_slice())
+            {
+                fails.insert("rfs-foreign-touched");
+            }
+            let _ = std::fs::remove_dir_all(&outside);
+        }
         let _ = std::env::set_current_dir("/");
         let _ = std::fs::remove_dir_all(&cwd);
         Some(if fails.is_empty() {
@@ -193,18 +240,20 @@ fn run(line: &str) -> String {
 
 fn gen(rng: &mut Rng, tier: Tier, n: usize) -> Vec<String> {
     // every spelling once with a plain configuration, then random ones
-    let mut out: Vec<String> = KINDS.iter().map(|k| format!("(rfs {} 2 false 0 3 1)", k)).collect();
+    let mut out: Vec<String> = KINDS.iter().map(|k| format!("(rfs {} 2 false 0 3 1 false)", k)).collect();
+    out.push("(rfs rel 1 true 1 4 1 true)".into());
     let extra = if tier == Tier::Thorough { n.max(60) } else { n.min(14) };
     for _ in 0..extra {
         let size = *rng.pick(&[0usize, 0, 1, 150, 400]);
         out.push(format!(
-            "(rfs {} {} {} {} {} {})",
+            "(rfs {} {} {} {} {} {} {})",
             rng.pick(&KINDS),
             1 + rng.usize(3),
             rng.bool(),
             size,
             1 + rng.usize(8),
-            rng.usize(3)
+            rng.usize(3),
+            rng.bool()
         ));
     }
     out
